@@ -348,8 +348,9 @@ def followsLoop (w : World) (o : Obj) (p2 : String) : Nat → String → Option 
     else if source = p2 then some true
     else followsLoop w o p2 f (getFrom w o (o.pre ++ source))
 
-/-- the constraint part (99-116): which constraints `p1` / `p2` end with -/
-def aliasConstraints (w : World) (i1 i2 : ObjId) : WR :=
+/-- the constraint part as found (99-116 before the repair): which constraints `p1` / `p2` end with;
+with two different constraints `p2` was narrowed first, and `p1`'s `setConstraint` could then raise -/
+def aliasConstraintsL (w : World) (i1 i2 : ObjId) : WR :=
   let q1 := w.heap.get i1
   let q2 := w.heap.get i2
   match q1.con, q2.con with
@@ -371,6 +372,19 @@ def aliasConstraints (w : World) (i1 i2 : ObjId) : WR :=
         | .error e => { w := w1, err := some e }
         | .ok q1' => { w := w1.putPar i1 q1' }
     else { w := w }
+
+/-- the test added by the repair (114-119): both constrained, descriptions different, and one of the
+two values outside the intersection -/
+def aliasGuard (w : World) (i1 i2 : ObjId) : Bool :=
+  match (w.heap.get i1).con, (w.heap.get i2).con with
+  | some c1, some c2 =>
+    decide (c1 ≠ c2) && (!(Con.inter c2 c1).accepts (w.heap.get i2).value || !(Con.inter c2 c1).accepts (w.heap.get i1).value)
+  | _, _ => false
+
+/-- the constraint part (99-123, repaired): both values are tested against the intersection before
+either parameter is modified (`ConstraintException`, nothing changed); then as before -/
+def aliasConstraints (w : World) (i1 i2 : ObjId) : WR :=
+  if aliasGuard w i1 i2 then { w := w, err := some .constraint } else aliasConstraintsL w i1 i2
 
 /-- the cycle test of the pair form: `repaired = true` is the loop over `getFrom`,
 `repaired = false` the test as found (only the reverse direct link `__alias_p1_to_p2`) -/
